@@ -217,11 +217,19 @@ def capture(*args, **kw):
     def create_decorator(func, level=None):
         def f(context, *args):
             h = LoggingCapture(context.config, level=level)
+            # -- REMEMBER: Active log-capture handlers (of the runner),
+            #    LoggingCapture.inveigle() removes them from the root logger.
+            root_logger = logging.getLogger()
+            other_captures = [x for x in root_logger.handlers
+                              if isinstance(x, LoggingCapture)]
             h.inveigle()
             try:
                 func(context, *args)
             finally:
                 h.abandon()
+                for other_capture in other_captures:
+                    if other_capture not in root_logger.handlers:
+                        root_logger.addHandler(other_capture)
             v = h.getvalue()
             if v:
                 print("Captured Logging:")
